@@ -50,6 +50,10 @@ class Ctx:
         self._feas_n = 0
         self.keep = []          # keep ASTs alive (ids are used as keys)
         self.memo = {}          # ast-id of decided condition -> (val, ast)
+        self.fp_abstract = False  # abstract Float64 products (CEGAR)
+        self.fp_products = {}     # (op, id a, id b) -> fresh result term
+        self.fp_refine = []       # exact definitions of abstract products
+        self.refine_timeout_ms = 60000
         self.uf = {}
 
     # -- variables --------------------------------------------------------
@@ -131,12 +135,35 @@ class Ctx:
         m = s.model() if r == 'sat' else None
         return r, m
 
-    def valid(self, prop, label='', **kw):
+    def valid(self, prop, label='', refine=True, **kw):
         """Is prop valid under side+pc?  Returns (verdict, model).
 
         verdict: 'held' (negation unsat), 'cex' (negation sat), 'unknown'.
         """
         r, m = self.check(z3.Not(_bt(prop)), label=label, **kw)
+        if r == 'sat' and self.fp_refine and refine:
+            # counterexample of the abstraction.  (1) cheap refinement: fix
+            # the leaf doubles of all abstracted products to the model's
+            # values; the exact IEEE-754 definitions then evaluate by
+            # constant propagation.
+            leaves = {}
+            for (op, *ids), res in self.fp_products.items():
+                pass
+            for d in self.fp_refine:
+                for t in _fp_leaves(d.arg(1)):
+                    leaves[t.get_id()] = t
+            fix = []
+            for t in leaves.values():
+                fix.append(t == m.eval(t, model_completion=True))
+            r1, m1 = self.check(z3.Not(_bt(prop)), *self.fp_refine, *fix,
+                                label=label+' (refined: model point)', **kw)
+            if r1 == 'sat':
+                return 'cex', m1
+            # (2) full exact query (may be slow)
+            kw2 = dict(kw)
+            kw2.setdefault('timeout_ms', self.refine_timeout_ms)
+            r, m = self.check(z3.Not(_bt(prop)), *self.fp_refine,
+                              label=label+' (refined: exact)', **kw2)
         return {'unsat': 'held', 'sat': 'cex', 'unknown': 'unknown'}[r], m
 
     # -- path exploration -------------------------------------------------
@@ -257,6 +284,23 @@ def ctx():
 def set_ctx(c):
     _CTX[0] = c
     return c
+
+
+def _fp_leaves(term):
+    """Uninterpreted FP constants below a term."""
+    out, seen, stack = [], set(), [term]
+    while stack:
+        t = stack.pop()
+        i = t.get_id()
+        if i in seen:
+            continue
+        seen.add(i)
+        if z3.is_const(t):
+            if t.decl().kind() == z3.Z3_OP_UNINTERPRETED:
+                out.append(t)
+        else:
+            stack.extend(t.children())
+    return out
 
 
 def _leading_coef(e):
@@ -837,3 +881,347 @@ def model_value(m, x):
         f = v.approx(30).as_fraction()
         return Fraction(f.numerator, f.denominator)
     raise ValueError(f"cannot evaluate {v}")
+
+
+# --------------------------------------------------------------------------
+# Integers (z3 Int) — shapes, levels, counters
+# --------------------------------------------------------------------------
+class Z:
+    """Symbolic integer: concrete python int (c) or z3 Int term (t)."""
+    __slots__ = ('c', '_t')
+
+    def __init__(self, v):
+        if isinstance(v, Z):
+            self.c, self._t = v.c, v._t
+        elif isinstance(v, (int, np.integer)) and not isinstance(v, bool):
+            self.c, self._t = int(v), None
+        elif isinstance(v, z3.ExprRef):
+            v = z3.simplify(v)
+            if z3.is_int_value(v):
+                self.c, self._t = v.as_long(), v
+            else:
+                self.c, self._t = None, v
+        else:
+            raise TypeError(f"cannot make Z from {type(v)}")
+
+    @staticmethod
+    def var(name):
+        return Z(z3.Int(name))
+
+    @property
+    def t(self):
+        if self._t is None:
+            self._t = z3.IntVal(self.c)
+        return self._t
+
+    @staticmethod
+    def _co(o):
+        if isinstance(o, Z):
+            return o
+        if isinstance(o, (bool, np.bool_)):
+            return Z(int(o))
+        if isinstance(o, (int, np.integer)):
+            return Z(int(o))
+        if isinstance(o, (float, np.floating)) and float(o).is_integer():
+            return Z(int(o))
+        return None
+
+    def _bin(self, o, f, zf):
+        o = Z._co(o)
+        if o is None:
+            return NotImplemented
+        if self.c is not None and o.c is not None:
+            return Z(f(self.c, o.c))
+        return Z(zf(self.t, o.t))
+
+    def __add__(self, o): return self._bin(o, lambda a, b: a+b,
+                                           lambda a, b: a+b)
+    __radd__ = __add__
+    def __sub__(self, o): return self._bin(o, lambda a, b: a-b,
+                                           lambda a, b: a-b)
+
+    def __rsub__(self, o):
+        o = Z._co(o)
+        return NotImplemented if o is None else o.__sub__(self)
+
+    def __mul__(self, o): return self._bin(o, lambda a, b: a*b,
+                                           lambda a, b: a*b)
+    __rmul__ = __mul__
+    def __neg__(self): return Z(-self.c) if self.c is not None else Z(-self.t)
+
+    def __mod__(self, o):
+        o = Z._co(o)
+        if o is None or o.c is None or o.c <= 0:
+            raise TypeError("symx: Z % non-constant")
+        if self.c is not None:
+            return Z(self.c % o.c)
+        return Z(self.t % o.c)
+
+    def __floordiv__(self, o):
+        o = Z._co(o)
+        if o is None or o.c is None or o.c <= 0:
+            raise TypeError("symx: Z // non-constant")
+        if self.c is not None:
+            return Z(self.c // o.c)
+        return Z(self.t / o.c)        # z3 Int division: floor for k > 0
+
+    def __truediv__(self, o):
+        """Exact quotient; only defined when divisibility is decided."""
+        o = Z._co(o)
+        if o is None or o.c is None or o.c <= 0:
+            raise TypeError("symx: Z / non-constant")
+        if o.c == 1:
+            return self
+        if self.c is not None:
+            if self.c % o.c == 0:
+                return Z(self.c // o.c)
+            return self.c / o.c
+        if ctx().decide(self.t % o.c == 0):
+            return Z(self.t / o.c)
+        raise NotImplementedError("symx: non-integer quotient of symbolic "
+                                  "integer")
+
+    def _cmp(self, o, f, zf):
+        o = Z._co(o)
+        if o is None:
+            if isinstance(o, float) or True:
+                return NotImplemented
+        if self.c is not None and o.c is not None:
+            return f(self.c, o.c)
+        return B(zf(self.t, o.t))
+
+    def __lt__(self, o):
+        if isinstance(o, float) and o == float('inf'):
+            return True
+        return self._cmp(o, lambda a, b: a < b, lambda a, b: a < b)
+
+    def __le__(self, o): return self._cmp(o, lambda a, b: a <= b,
+                                          lambda a, b: a <= b)
+
+    def __gt__(self, o): return self._cmp(o, lambda a, b: a > b,
+                                          lambda a, b: a > b)
+
+    def __ge__(self, o): return self._cmp(o, lambda a, b: a >= b,
+                                          lambda a, b: a >= b)
+
+    def __eq__(self, o): return self._cmp(o, lambda a, b: a == b,
+                                          lambda a, b: a == b)
+
+    def __ne__(self, o): return self._cmp(o, lambda a, b: a != b,
+                                          lambda a, b: a != b)
+    __hash__ = object.__hash__
+
+    def __bool__(self):
+        if self.c is not None:
+            return self.c != 0
+        return ctx().decide(self.t != 0)
+
+    def __int__(self):
+        if self.c is not None:
+            return self.c
+        raise TypeError("symx: int() of symbolic integer")
+
+    def __index__(self):
+        if self.c is not None:
+            return self.c
+        raise TypeError("symx: symbolic integer used as index")
+
+    def __format__(self, spec):
+        if self.c is not None:
+            return format(self.c, spec)
+        return '<sym>'
+
+    def __repr__(self):
+        return f"Z({self.c})" if self.c is not None else f"Z<{self.t}>"
+
+
+def symint(x):
+    """Replacement for builtins.int inside shadow modules."""
+    if isinstance(x, Z):
+        return x
+    if isinstance(x, Q) and x.c is not None:
+        return int(x.c)
+    return int(x)
+
+
+# --------------------------------------------------------------------------
+# IEEE-754 doubles (z3 Float64, round-nearest-even)
+# --------------------------------------------------------------------------
+_F64 = z3.Float64()
+_RNE = z3.RNE()
+
+
+class F64:
+    """Symbolic IEEE-754 binary64 value."""
+    __slots__ = ('t',)
+
+    def __init__(self, t):
+        if isinstance(t, F64):
+            t = t.t
+        elif isinstance(t, (int, float, np.floating, np.integer)):
+            t = z3.FPVal(float(t), _F64)
+        self.t = t
+
+    @staticmethod
+    def var(name):
+        return F64(z3.FP(name, _F64))
+
+    @staticmethod
+    def _co(o):
+        if isinstance(o, F64):
+            return o
+        if isinstance(o, (bool, np.bool_)):
+            return None
+        if isinstance(o, (int, float, np.floating, np.integer)):
+            return F64(o)
+        return None
+
+    def _bin(self, o, f, swap=False):
+        o = F64._co(o)
+        if o is None:
+            return NotImplemented
+        a, b = (o.t, self.t) if swap else (self.t, o.t)
+        return F64(f(a, b))
+
+    def __mul__(self, o):
+        c = _CTX[0]
+        if c is not None and c.fp_abstract:
+            o2 = F64._co(o)
+            if o2 is None:
+                return NotImplemented
+            return _fp_abstract_mul(c, self.t, o2.t)
+        return self._bin(o, lambda a, b: z3.fpMul(_RNE, a, b))
+    __rmul__ = __mul__
+    def __add__(self, o): return self._bin(o, lambda a, b: z3.fpAdd(_RNE, a,
+                                                                     b))
+    __radd__ = __add__
+    def __sub__(self, o): return self._bin(o, lambda a, b: z3.fpSub(_RNE, a,
+                                                                     b))
+
+    def __rsub__(self, o): return self._bin(
+        o, lambda a, b: z3.fpSub(_RNE, a, b), swap=True)
+
+    def __truediv__(self, o):
+        c = _CTX[0]
+        if c is not None and c.fp_abstract:
+            o2 = F64._co(o)
+            if o2 is None:
+                return NotImplemented
+            return _fp_abstract_div(c, self.t, o2.t)
+        return self._bin(o, lambda a, b: z3.fpDiv(_RNE, a, b))
+
+    def __rtruediv__(self, o):
+        c = _CTX[0]
+        if c is not None and c.fp_abstract:
+            o2 = F64._co(o)
+            if o2 is None:
+                return NotImplemented
+            return _fp_abstract_div(c, o2.t, self.t)
+        return self._bin(o, lambda a, b: z3.fpDiv(_RNE, a, b), swap=True)
+
+    def __neg__(self): return F64(z3.fpNeg(self.t))
+    def __abs__(self): return F64(z3.fpAbs(self.t))
+
+    def _cmp(self, o, f):
+        o = F64._co(o)
+        if o is None:
+            return NotImplemented
+        return B(f(self.t, o.t))
+
+    def __lt__(self, o): return self._cmp(o, z3.fpLT)
+    def __le__(self, o): return self._cmp(o, z3.fpLEQ)
+    def __gt__(self, o): return self._cmp(o, z3.fpGT)
+    def __ge__(self, o): return self._cmp(o, z3.fpGEQ)
+    def __eq__(self, o): return self._cmp(o, z3.fpEQ)
+    def __ne__(self, o): return self._cmp(o, lambda a, b: z3.Not(
+        z3.fpEQ(a, b)))
+    __hash__ = object.__hash__
+
+    def isfinite_(self):
+        return B(z3.And(z3.Not(z3.fpIsNaN(self.t)), z3.Not(z3.fpIsInf(
+            self.t))))
+
+    def isnan_(self):
+        return B(z3.fpIsNaN(self.t))
+
+    def __float__(self):
+        raise TypeError("symx: float() of symbolic double")
+
+    def __format__(self, spec):
+        return '<f64>'
+
+    def __repr__(self):
+        return f"F64<{self.t}>"
+
+    def same_as(self, o):
+        """Bit-level sameness up to NaN (both NaN, or fpEQ and same sign)."""
+        o = F64._co(o)
+        return z3.Or(z3.And(z3.fpIsNaN(self.t), z3.fpIsNaN(o.t)),
+                     self.t == o.t)
+
+
+def _fp_abstract_mul(c, a, b):
+    """Sound over-approximation of RNE(a*b) using comparisons only."""
+    ia, ib = a.get_id(), b.get_id()
+    key = ('mul',)+tuple(sorted((ia, ib)))
+    hit = c.fp_products.get(key)
+    if hit is not None:
+        return F64(hit)
+    m = c.fresh('fpmul', 'f64')
+    c.keep += [a, b, m]
+    one = z3.FPVal(1.0, _F64)
+    nan_in = z3.Or(z3.fpIsNaN(a), z3.fpIsNaN(b))
+    fin = lambda x: z3.And(z3.Not(z3.fpIsNaN(x)), z3.Not(z3.fpIsInf(x)))
+    aa, ab, am = z3.fpAbs(a), z3.fpAbs(b), z3.fpAbs(m)
+    cons = [
+        z3.Implies(nan_in, z3.fpIsNaN(m)),
+        z3.Implies(z3.And(fin(a), fin(b)), z3.Not(z3.fpIsNaN(m))),
+        z3.Implies(z3.And(fin(a), fin(b), z3.fpLEQ(aa, one)),
+                   z3.fpLEQ(am, ab)),
+        z3.Implies(z3.And(fin(a), fin(b), z3.fpLEQ(ab, one)),
+                   z3.fpLEQ(am, aa)),
+        z3.Implies(z3.And(z3.Not(nan_in), z3.fpGEQ(aa, one),
+                          z3.Not(z3.fpIsNaN(m))), z3.fpGEQ(am, ab)),
+        z3.Implies(z3.And(z3.Not(nan_in), z3.fpGEQ(ab, one),
+                          z3.Not(z3.fpIsNaN(m))), z3.fpGEQ(am, aa)),
+        z3.Implies(z3.Not(z3.fpIsNaN(m)),
+                   z3.fpIsNegative(m) == z3.Xor(z3.fpIsNegative(a),
+                                                z3.fpIsNegative(b))),
+        z3.Implies(z3.And(z3.fpIsZero(a), fin(b)), z3.fpIsZero(m)),
+        z3.Implies(z3.And(z3.fpIsZero(b), fin(a)), z3.fpIsZero(m)),
+    ]
+    c.side.extend(cons)
+    c._feas = None
+    c.fp_products[key] = m
+    c.fp_refine.append(m == z3.fpMul(_RNE, a, b))
+    return F64(m)
+
+
+def _fp_abstract_div(c, a, b):
+    key = ('div', a.get_id(), b.get_id())
+    hit = c.fp_products.get(key)
+    if hit is not None:
+        return F64(hit)
+    m = c.fresh('fpdiv', 'f64')
+    c.keep += [a, b, m]
+    c.fp_products[key] = m
+    c.fp_refine.append(m == z3.fpDiv(_RNE, a, b))
+    return F64(m)
+
+
+def f64_model_value(m, x):
+    """Concrete python float (exact bits) of an F64 under model m."""
+    import struct
+    v = z3.simplify(m.eval(x.t if isinstance(x, F64) else x,
+                           model_completion=True))
+    if v.isNaN():
+        return float('nan')
+    if v.isInf():
+        return float('-inf') if v.isNegative() else float('inf')
+    sign = 1 if v.isNegative() else 0
+    if v.isZero():
+        return -0.0 if sign else 0.0
+    ex = v.exponent_as_long(True)
+    sig = v.significand_as_long()
+    bits = (sign << 63) | (ex << 52) | sig
+    return struct.unpack('>d', struct.pack('>Q', bits))[0]
